@@ -13,6 +13,7 @@ import (
 	"fmt"
 	"sort"
 	"strings"
+	"testing/fstest"
 
 	"oss.terrastruct.com/d2/d2ast"
 	"oss.terrastruct.com/d2/d2cli"
@@ -43,6 +44,10 @@ type c35Board struct {
 	Name                     string
 	Objs                     []*c35Obj
 	Layers, Scenarios, Steps []*c35Board
+	// Import != "": the board's content is the file Import+".d2" (a generated sub-program);
+	// Spread: written `name: { ...@file }` instead of `name: @file`
+	Import string
+	Spread bool
 }
 
 func c35NeedsQuote(s string) bool {
@@ -80,7 +85,14 @@ func (b *c35Board) src(ind string) string {
 		}
 		fmt.Fprintf(&sb, "%s%s: {\n", ind, k)
 		for _, c := range bs {
-			fmt.Fprintf(&sb, "%s  %s: {\n%s%s  }\n", ind, c35Key(c.Name), c.src(ind+"    "), ind)
+			switch {
+			case c.Import != "" && c.Spread:
+				fmt.Fprintf(&sb, "%s  %s: {\n%s    ...@%s\n%s  }\n", ind, c35Key(c.Name), ind, c.Import, ind)
+			case c.Import != "":
+				fmt.Fprintf(&sb, "%s  %s: @%s\n", ind, c35Key(c.Name), c.Import)
+			default:
+				fmt.Fprintf(&sb, "%s  %s: {\n%s%s  }\n", ind, c35Key(c.Name), c.src(ind+"    "), ind)
+			}
 		}
 		fmt.Fprintf(&sb, "%s}\n", ind)
 	}
@@ -148,7 +160,7 @@ func c35StubLayout(ctx context.Context, g *d2graph.Graph) error {
 
 var c35Ruler *textmeasure.Ruler
 
-func c35Compile(src string) (d *d2target.Diagram, err error) {
+func c35Compile(src string, files map[string]string) (d *d2target.Diagram, err error) {
 	defer func() {
 		if e := recover(); e != nil {
 			err = fmt.Errorf("panic: %v", e)
@@ -161,8 +173,14 @@ func c35Compile(src string) (d *d2target.Diagram, err error) {
 		}
 	}
 	ctx := log.WithDefault(context.Background())
+	mfs := fstest.MapFS{"in.d2": {Data: []byte(src)}}
+	for name, content := range files {
+		mfs[name+".d2"] = &fstest.MapFile{Data: []byte(content)}
+	}
 	d, _, err = d2lib.Compile(ctx, src, &d2lib.CompileOptions{
 		Ruler:          c35Ruler,
+		FS:             mfs,
+		InputPath:      "in.d2",
 		LayoutResolver: func(engine string) (d2graph.LayoutGraph, error) { return c35StubLayout, nil },
 	}, nil)
 	return d, err
@@ -170,11 +188,12 @@ func c35Compile(src string) (d *d2target.Diagram, err error) {
 
 // the specification's reading of a written link: pop one board level per leading underscore, then
 // (kind, name) pairs; ok=false when the rest is not of that shape
-func c35SpecTarget(def []c35Pair, link []d2ast.String) (target []c35Pair, ok bool) {
+func c35SpecTarget(def, fileRoot []c35Pair, link []d2ast.String) (target []c35Pair, ok bool) {
 	target = append([]c35Pair{}, def...)
 	i := 0
 	if len(link) > 0 && link[0].ScalarString() == "root" {
-		target = nil
+		// the root of the file the link is written in (an imported file's root is the importing board)
+		target = append([]c35Pair{}, fileRoot...)
 		i = 1
 	} else {
 		for i < len(link) && link[i].ScalarString() == "_" && link[i].IsUnquoted() {
@@ -213,7 +232,7 @@ func c35PairsEq(a, b []c35Pair) bool {
 
 var c35Names = []string{"a", "b", "c", "x1", "v2", "main", "a.b", "my board", "z.9", "B"}
 
-func c35GenProgram(r *Rng, corpus int) *c35Board {
+func c35GenProgram(r *Rng, withImports bool) (*c35Board, map[string]string) {
 	nObj := 0
 	var all [][]c35Pair // filled after the tree is built
 	var gen func(depth int, path []c35Pair) *c35Board
@@ -374,7 +393,45 @@ func c35GenProgram(r *Rng, corpus int) *c35Board {
 		}
 	}
 	root.walk(nil, mk)
-	return root
+	files := map[string]string{}
+	if withImports {
+		// move the content of one or two boards into files imported as `name: @f` / `name: {...@f}`
+		var cands []*c35Board
+		root.walk(nil, func(p []c35Pair, b *c35Board) {
+			// (not steps: a later step inherits from an imported step, links rebased there included,
+			// which the per-object records of this harness do not follow)
+			if len(p) > 0 && p[len(p)-1].Kind != "steps" {
+				cands = append(cands, b)
+			}
+		})
+		for n := 0; n < 2 && len(cands) > 0; n++ {
+			c := cands[r.Intn(len(cands))]
+			if c.Import != "" {
+				continue
+			}
+			inside := false // not inside an already externalised board
+			for _, f := range files {
+				_ = f
+			}
+			if inside {
+				continue
+			}
+			name := fmt.Sprintf("f%d", n+1)
+			files[name] = (&c35Board{Objs: c.Objs, Layers: c.Layers, Scenarios: c.Scenarios, Steps: c.Steps}).src("")
+			c.Import, c.Spread = name, r.Intn(2) == 0
+		}
+		// a file that itself imports is not generated: drop files whose text mentions an import
+		for n, f := range files {
+			if strings.Contains(f, "@") {
+				// re-inline: simplest is to give up imports for this program
+				_ = n
+				root.walk(nil, func(p []c35Pair, b *c35Board) { b.Import = "" })
+				files = map[string]string{}
+				break
+			}
+		}
+	}
+	return root, files
 }
 
 func c35Corpus() []string {
@@ -387,6 +444,29 @@ func c35Corpus() []string {
 		"r.link: root\nlayers: { a: { s1.link: _.layers.a\n layers: { b: { s2.link: _.layers.b\n layers: { c: { s3.link: _.layers.c; s4: { link: _._._ } } } } } } }\n",
 	}
 }
+
+const c35ImportCorpusMain = `m.link: layers.a
+layers: {
+  a: @x
+  b: {
+    ...@x
+  }
+  c: { z }
+}
+obj: @x
+`
+
+const c35ImportCorpusX = `p1.link: layers.c
+p2.link: _.layers.c
+p3.link: root.layers.c
+p4.link: foo.html
+p5.link: _
+p6: { link: layers.nope }
+p7.link: https://example.com
+layers: {
+  c: { q1.link: _; q2.link: _._.layers.c; q3.link: _.layers.c }
+}
+`
 
 type c35Record struct {
 	obj      string
@@ -404,9 +484,20 @@ func c35Gen(r *Rng, tier string, n int) []Case {
 	for _, src := range c35Corpus() {
 		out = append(out, c35Case(src, nil, "corpus"))
 	}
+	out = append(out, c35Case(c35ImportCorpusMain, map[string]string{"x": c35ImportCorpusX}, "corpus-import"))
 	for len(out) < n {
-		prog := c35GenProgram(r.Fork(), 0)
-		out = append(out, c35Case(prog.src(""), prog, "random"))
+		rr := r.Fork()
+		if rr.Intn(3) == 0 {
+			prog, files := c35GenProgram(rr, true)
+			cl := "random-import"
+			if len(files) == 0 {
+				cl = "random"
+			}
+			out = append(out, c35Case(prog.src(""), files, cl))
+		} else {
+			prog, _ := c35GenProgram(rr, false)
+			out = append(out, c35Case(prog.src(""), nil, "random"))
+		}
 	}
 	return out
 }
@@ -415,12 +506,53 @@ func c35Gen(r *Rng, tier string, n int) []Case {
 // program and walks the AST, so corpus programs and generated ones are treated alike.
 type c35Written struct {
 	board []c35Pair
-	scope []d2ast.String // IDA of the ScopeMap
+	scope []d2ast.String // IDA of the ScopeMap (inside an imported file: from that file's root)
+	imp   []d2ast.String // non-nil: IDA of the importing field
+	froot []c35Pair      // board the file's root is imported as (nil for the main file)
 	obj   string         // absolute object id inside the board, e.g. o5.q
 	raw   string
 }
 
-func c35Walk(m *d2ast.Map, board []c35Pair, scope []d2ast.String, objPath []string, out *[]c35Written) {
+// c35WalkImport walks the AST of an imported file: scopes restart at the file's root, boards continue
+// below the importing board, and every link carries the IDA of the importing field.
+// boards whose content is imported (board path -> IDA of the importing field)
+var c35ImportBoards map[string][]d2ast.String
+
+func c35WalkImport(files map[string]*d2ast.Map, name string, board []c35Pair, imp []d2ast.String, out *[]c35Written) {
+	if c35ImportBoards != nil {
+		c35ImportBoards[fmt.Sprint(board)] = imp
+	}
+	m := files[name]
+	if m == nil {
+		return
+	}
+	var sub []c35Written
+	c35Walk(files, m, nil, []d2ast.String{d2ast.FlatUnquotedString("root")}, nil, &sub)
+	for _, w := range sub {
+		if w.imp != nil {
+			continue // nested imports are not generated
+		}
+		w.board = append(append([]c35Pair{}, board...), w.board...)
+		w.imp = imp
+		w.froot = board
+		*out = append(*out, w)
+	}
+}
+
+func c35ImportName(imp *d2ast.Import) string {
+	if imp == nil || len(imp.Path) == 0 {
+		return ""
+	}
+	return imp.Path[0].Unbox().ScalarString()
+}
+
+func c35Walk(files map[string]*d2ast.Map, m *d2ast.Map, board []c35Pair, scope []d2ast.String, objPath []string, out *[]c35Written) {
+	for _, nb := range m.Nodes {
+		if nb.Import != nil && nb.Import.Spread && len(objPath) == 0 && len(board) > 0 {
+			// `...@file` directly inside a board map: importF is the board's field
+			c35WalkImport(files, c35ImportName(nb.Import), board, scope, out)
+		}
+	}
 	for _, nb := range m.Nodes {
 		k := nb.MapKey
 		if k == nil || k.Key == nil || len(k.Edges) > 0 {
@@ -436,7 +568,7 @@ func c35Walk(m *d2ast.Map, board []c35Pair, scope []d2ast.String, objPath []stri
 		if len(ida) == 1 && isBoardKw(first) && len(objPath) == 0 && k.Value.Map != nil {
 			for _, nb2 := range k.Value.Map.Nodes {
 				k2 := nb2.MapKey
-				if k2 == nil || k2.Key == nil || k2.Value.Map == nil {
+				if k2 == nil || k2.Key == nil || (k2.Value.Map == nil && k2.Value.Import == nil) {
 					continue
 				}
 				bn := k2.Key.IDA()
@@ -445,7 +577,11 @@ func c35Walk(m *d2ast.Map, board []c35Pair, scope []d2ast.String, objPath []stri
 				}
 				b2 := append(append([]c35Pair{}, board...), c35Pair{first.ScalarString(), bn[0].ScalarString()})
 				sc := append(append([]d2ast.String{}, scope...), first, bn[0])
-				c35Walk(k2.Value.Map, b2, sc, nil, out)
+				if k2.Value.Import != nil {
+					c35WalkImport(files, c35ImportName(k2.Value.Import), b2, sc, out)
+					continue
+				}
+				c35Walk(files, k2.Value.Map, b2, sc, nil, out)
 			}
 			continue
 		}
@@ -468,15 +604,26 @@ func c35Walk(m *d2ast.Map, board []c35Pair, scope []d2ast.String, objPath []stri
 				op = append(op, s.ScalarString())
 				sc = append(sc, s)
 			}
-			c35Walk(k.Value.Map, board, sc, op, out)
+			c35Walk(files, k.Value.Map, board, sc, op, out)
 		}
 	}
 }
 
-func c35Case(src string, prog *c35Board, class string) (cs Case) {
+func c35Case(src string, files map[string]string, class string) (cs Case) {
 	cs.Class = class
 	cs.Input = map[string]any{"d2": src}
 	cs.Key = src
+	if len(files) > 0 {
+		cs.Input = map[string]any{"d2": src, "imports": files}
+		var names []string
+		for n := range files {
+			names = append(names, n)
+		}
+		sort.Strings(names)
+		for _, n := range names {
+			cs.Key += "\x00" + n + "\x00" + files[n]
+		}
+	}
 	trivial := `Case [46;115;118;103] [[119];[111;117;116]] (Board [] false [] [] []) []`
 	fail := func(f string, a ...any) Case {
 		cs.ImplFail = append(cs.ImplFail, fmt.Sprintf(f, a...))
@@ -492,10 +639,19 @@ func c35Case(src string, prog *c35Board, class string) (cs Case) {
 	if err != nil {
 		return fail("generated program does not parse: %v", err)
 	}
+	fileASTs := map[string]*d2ast.Map{}
+	for n, content := range files {
+		fa, err := d2parser.Parse(n+".d2", strings.NewReader(content), nil)
+		if err != nil {
+			return fail("generated import %s does not parse: %v", n, err)
+		}
+		fileASTs[n] = fa
+	}
 	var written []c35Written
-	c35Walk(ast, nil, []d2ast.String{d2ast.FlatUnquotedString("root")}, nil, &written)
+	c35ImportBoards = map[string][]d2ast.String{}
+	c35Walk(fileASTs, ast, nil, []d2ast.String{d2ast.FlatUnquotedString("root")}, nil, &written)
 
-	d, err := c35Compile(src)
+	d, err := c35Compile(src, files)
 	if err != nil {
 		cs.Class = class + "-rejected"
 		cs.Impl = map[string]any{"compile_error": strings.SplitN(err.Error(), "\n", 2)[0]}
@@ -548,6 +704,7 @@ func c35Case(src string, prog *c35Board, class string) (cs Case) {
 	var shown []map[string]any
 	kf := map[string]bool{}
 	nontrivial := 0
+	inheritedIntoImport := false
 	for _, w := range written {
 		link, err := d2parser.ParseKey(w.raw)
 		isURL := strings.Contains(w.raw, "://")
@@ -584,13 +741,29 @@ func c35Case(src string, prog *c35Board, class string) (cs Case) {
 				storedOpt = "(Some " + coqList(xs) + ")"
 				nontrivial++
 			}
-			recs = append(recs, fmt.Sprintf("L %s %s %s %s %s %s", c35CoqIDA(w.scope), c35CoqPairs(bp), c35CoqIDA(link.IDA()),
+			impOpt := "None"
+			if w.imp != nil {
+				impOpt = "(Some " + c35CoqIDA(w.imp) + ")"
+			} else {
+				// an object inherited by an imported scenario/step (or by a board below it): extendLinks runs
+				// over the whole map of the importing field, overlaid base objects included, and rebases
+				// their links as well
+				for k := 1; k <= len(bp); k++ {
+					ib, ok := c35ImportBoards[fmt.Sprint(bp[:k])]
+					if ok && !(len(w.board) >= k && c35PairsEq(w.board[:k], bp[:k])) {
+						impOpt = "(Some " + c35CoqIDA(ib) + ")"
+						inheritedIntoImport = true
+						break
+					}
+				}
+			}
+			recs = append(recs, fmt.Sprintf("L %s %s %s %s %s %s %s", c35CoqIDA(w.scope), impOpt, c35CoqPairs(bp), c35CoqIDA(link.IDA()),
 				storedOpt, c35CoqStr(st), c35CoqStr(fin)))
 			if len(shown) < 12 {
-				shown = append(shown, map[string]any{"board": fmt.Sprint(bp), "obj": w.obj, "link": w.raw, "stored": st, "final": fin})
+				shown = append(shown, map[string]any{"board": fmt.Sprint(bp), "obj": w.obj, "link": w.raw, "stored": st, "final": fin, "imported": w.imp != nil})
 			}
 			// known-finding signatures, from the written link and the board tree only
-			if target, ok := c35SpecTarget(w.board, link.IDA()); ok {
+			if target, ok := c35SpecTarget(w.board, w.froot, link.IDA()); ok {
 				if c35PairsEq(target, bp) && len(bp) >= 2 {
 					kf["C35-self-link-nested-board"] = true
 				}
@@ -607,6 +780,7 @@ func c35Case(src string, prog *c35Board, class string) (cs Case) {
 	cs.Coq = fmt.Sprintf("Case %s %s %s %s", coqBytes(".svg"), c34Path("/w/out"), tree.coq(), coqList(recs))
 	cs.Impl = map[string]any{"links": shown, "n_links": len(recs)}
 	cs.Nontrivial = nontrivial > 0
+	_ = inheritedIntoImport
 	for k := range kf {
 		cs.KF = append(cs.KF, k)
 	}
